@@ -7,6 +7,7 @@ import (
 	"bytes"
 	"encoding/json"
 	"fmt"
+	"math"
 	"math/big"
 	"strings"
 	"time"
@@ -56,6 +57,11 @@ func (t tv) value(now int64) (interface{}, bool, jv) {
 	case "neghuge":
 		z, _ := new(big.Float).SetFloat64(-1e30).Int(nil)
 		return -1e30, true, jv{Kind: 'n', N: z}
+	case "absf": // an absolute float64 value
+		z, _ := new(big.Float).SetFloat64(float64(t.Off)).Int(nil)
+		return float64(t.Off), true, jv{Kind: 'n', N: z}
+	case "absi": // an absolute int64 value
+		return t.Off, true, jv{Kind: 'n', N: big.NewInt(t.Off)}
 	case "str":
 		return fmt.Sprint(now + t.Off), true, jv{Kind: 's', S: fmt.Sprint(now + t.Off)}
 	}
@@ -375,7 +381,10 @@ func genFuncs(c *core.Ctx, kr *keyring) error {
 			iatVals = append(iatVals, tv{Kind: "f64", Off: -(w.maxAge() + d)})
 		}
 		iatVals = append(iatVals, tv{Kind: "i64", Off: -w.maxAge()}, tv{Kind: "i64", Off: -w.maxAge() - 1}, tv{Kind: "int", Off: -w.maxAge() - 1},
-			tv{Kind: "f64", Off: 5000}, tv{Kind: "frac", Off: -w.maxAge() - 1, Frac: 0.5}, tv{Kind: "frac", Off: -w.maxAge() - 1, Frac: -0.5})
+			tv{Kind: "f64", Off: 5000}, tv{Kind: "frac", Off: -w.maxAge() - 1, Frac: 0.5}, tv{Kind: "frac", Off: -w.maxAge() - 1, Frac: -0.5},
+			// issued so long ago that now - iat does not fit in an int64
+			tv{Kind: "absf", Off: -9000000000000000000}, tv{Kind: "absi", Off: -9000000000000000000}, tv{Kind: "absi", Off: math.MinInt64},
+			tv{Kind: "absi", Off: math.MinInt64 + 1700000000}, tv{Kind: "absi", Off: 0}, tv{Kind: "absi", Off: -1})
 		for i := range expVals {
 			for j := range iatVals {
 				n++
@@ -508,6 +517,9 @@ func genFuncs(c *core.Ctx, kr *keyring) error {
 		{"exp-frac", `{"exp":%EXP%.75,"sub":"alice@pool.example"}`},
 		{"exp-huge", `{"exp":1e30,"sub":"alice@pool.example"}`},
 		{"iat-neg-huge", `{"iat":-1e30,"sub":"alice@pool.example"}`},
+		{"iat-ancient", `{"exp":%EXP%,"iat":-9000000000000000000,"sub":"alice@pool.example"}`},
+		{"iat-min", `{"exp":%EXP%,"iat":-9223372036854775808,"sub":"alice@pool.example"}`},
+		{"iat-zero", `{"exp":%EXP%,"iat":0,"sub":"alice@pool.example"}`},
 		{"sub-absent", `{"exp":%EXP%,"iat":%IAT%}`},
 		{"sub-empty", `{"exp":%EXP%,"sub":""}`},
 		{"sub-number", `{"exp":%EXP%,"sub":42}`},
